@@ -28,7 +28,18 @@ def instantiate(shape, rot, unknown=False, neigh=0):
     C = classes_db()
     role, marker, chmask, ncbc, netm, other = shape
     src = UNKNOWN if unknown else C
-    kex = ['curve25519-sha256'] + {'own': [MS if role == 'server' else MC], 'other': [MC if role == 'server' else MS], 'both': [MS, MC], 'none': []}[marker]
+    marks = {'own': [MS if role == 'server' else MC], 'other': [MC if role == 'server' else MS], 'both': [MS, MC], 'none': []}[marker]
+    # the marker may sit anywhere in the list: last (as OpenSSH sends it), first, or before other names
+    others = ['curve25519-sha256', 'ext-info-s' if role == 'server' else 'ext-info-c', 'diffie-hellman-group16-sha512']
+    layout = (rot + neigh) % 4
+    if layout == 0:
+        kex = others[:1] + marks
+    elif layout == 1:
+        kex = marks + others[:2]
+    elif layout == 2:
+        kex = others[:1] + marks + others[1:2]
+    else:
+        kex = others[:1] + marks[::-1] + others[1:]
     ch = [src['chacha'][i % len(src['chacha'])] for i in range(2) if chmask >> i & 1]
     if unknown and ch:
         ch = [src['chacha'][(rot + i) % len(src['chacha'])] for i in range(len(ch))]
